@@ -58,7 +58,7 @@ int main(void) {
 		line[strcspn(line, "\n")] = 0; if (!line[0]) continue;
 		int fd[2]; if (pipe(fd)) return 3; fflush(stdout);
 		pid_t p = fork();
-		if (!p) { close(fd[0]); char out[400] = ""; run(line, out, sizeof out); if (write(fd[1], out, strlen(out)) < 0) _exit(3); _exit(0); }
+		if (!p) { close(fd[0]); alarm(120); char out[400] = ""; run(line, out, sizeof out); if (write(fd[1], out, strlen(out)) < 0) _exit(3); _exit(0); }
 		close(fd[1]); char res[512]; ssize_t n = 0, k; while ((k = read(fd[0], res + n, sizeof res - 1 - n)) > 0) n += k; res[n] = 0; close(fd[0]);
 		int st; waitpid(p, &st, 0);
 		if (!WIFEXITED(st) || WEXITSTATUS(st) != 0 || n == 0) printf("%s CRASH %s%d\n", line, WIFSIGNALED(st) ? "signal" : "exit", WIFSIGNALED(st) ? WTERMSIG(st) : WEXITSTATUS(st));
